@@ -6,6 +6,7 @@ import (
 	"fmt"
 	"math/rand"
 	"strings"
+	"sync"
 	"sync/atomic"
 	"time"
 )
@@ -579,7 +580,21 @@ func genC18(out, tier string, rng *rand.Rand) {
 			sink.AddOracleOnly(pc, string(js), js, true)
 		}
 	}
-	sink.Close(fmt.Sprintf("ReadRows scans over %d rows of 1050 cells each (every row forces a hand-over: more than the flush threshold of pending chunks) with full-table, two-range and keys+range+limit RowSets; at every hand-over a writer (MutateRow set+delete-column, DeleteFromRow, ReadModifyWriteRow, MutateRows incl. a new row) acts on the row before / at / after the scan position, plus schedules where a writer is parked inside its section when the scan wants the lock back and two-writer schedules; both leveldb engines; every scheduler step (parked / blocked / returned + rows) is compared with the snapshot-per-range interleaving model, then a full read; thorough adds random three-thread schedules; non-trivial = some step was blocked", nrows), false)
+	// free-running: the cooperative schedules never have a second writer queue up while the scan itself
+	// waits for the lock (the waiter rule), and interleave only at the yield points; here scans over a
+	// RowSet that mixes ranges and single keys run against writers of unrelated rows as the runtime
+	// schedules them. Judged by the property: every scan ends OK with exactly the RowSet's (never
+	// written) rows in ascending order.
+	for _, en := range leveldbEngines() { // the btree engine iterates the live tree and documents that it offers no such guarantee
+		dur := 1500 * time.Millisecond
+		if tier == "thorough" {
+			dur = 8 * time.Second
+		}
+		pc := c18FreeRun(en, dur)
+		js, _ := json.Marshal(pc)
+		sink.AddOracleOnly(pc, string(js), js, true)
+	}
+	sink.Close(fmt.Sprintf("(plus, free-running on both leveldb engines: scans over a RowSet mixing ranges and single keys against writers of unrelated rows for a second or more; every scan must end OK with exactly its rows) ReadRows scans over %d rows of 1050 cells each (every row forces a hand-over: more than the flush threshold of pending chunks) with full-table, two-range and keys+range+limit RowSets; at every hand-over a writer (MutateRow set+delete-column, DeleteFromRow, ReadModifyWriteRow, MutateRows incl. a new row) acts on the row before / at / after the scan position, plus schedules where a writer is parked inside its section when the scan wants the lock back and two-writer schedules; both leveldb engines; every scheduler step (parked / blocked / returned + rows) is compared with the snapshot-per-range interleaving model, then a full read; thorough adds random three-thread schedules; non-trivial = some step was blocked", nrows), false)
 }
 
 // ---------------- C16: GC hand-over against writers + sequential policy programs ----------------
@@ -697,4 +712,88 @@ func bigTableSetup() []Call {
 		setup = append(setup, Call{Req: Req{Kind: "mutate", Table: concTable, Key: b.Key, Muts: b.muts()}, Now: 1000000})
 	}
 	return setup
+}
+
+// c18FreeRun: see the free-running block of genC18
+func c18FreeRun(en Engine, dur time.Duration) Case {
+	st, cleanup := en.mk()
+	defer cleanup()
+	e := NewEmu(st)
+	setup, _ := c18Setup(20)
+	for _, c := range setup {
+		e.ExecFast(c)
+	}
+	rs := Req{Kind: "read", Table: concTable,
+		Ranges: []RowRange{{S: Bound{Kind: "closed", K: scanKey(0)}, E: Bound{Kind: "open", K: scanKey(6)}}, {S: Bound{Kind: "closed", K: scanKey(15)}, E: Bound{Kind: "unset"}}},
+		Keys:   [][]byte{scanKey(8), scanKey(10), scanKey(12), scanKey(13)}}
+	var want []string
+	for _, i := range []int{0, 1, 2, 3, 4, 5, 8, 10, 12, 13, 15, 16, 17, 18, 19} {
+		want = append(want, string(scanKey(i)))
+	}
+	var mu sync.Mutex
+	var notes []string
+	note := func(f string, a ...interface{}) {
+		mu.Lock()
+		if len(notes) < 5 {
+			notes = append(notes, "free-running: "+fmt.Sprintf(f, a...))
+		}
+		mu.Unlock()
+	}
+	stop := time.Now().Add(dur)
+	var scans, writes int64
+	var wg sync.WaitGroup
+	for g := 0; g < 3; g++ {
+		wg.Add(1)
+		go func() {
+			defer wg.Done()
+			for time.Now().Before(stop) {
+				o := e.ExecFast(Call{Req: rs, Now: 1})
+				atomic.AddInt64(&scans, 1)
+				if o.Panic != "" || o.Code != 0 {
+					note("a scan ended with status %d %s", o.Code, o.Panic)
+					continue
+				}
+				var got []string
+				for _, r := range o.Rows {
+					got = append(got, string(r.Key))
+				}
+				if strings.Join(got, ",") != strings.Join(want, ",") {
+					note("a scan returned rows %v, its RowSet names %v (none of them is ever written)", got, want)
+				}
+			}
+		}()
+	}
+	for g := 0; g < 4; g++ {
+		wg.Add(1)
+		go func(g int) {
+			defer wg.Done()
+			for i := 0; time.Now().Before(stop); i++ {
+				key := []byte(fmt.Sprintf("k07-w%d", g)) // between the RowSet's pieces, in none of them
+				var c Call
+				switch i % 3 {
+				case 0:
+					c = Call{Req: Req{Kind: "mutate", Table: concTable, Key: key, Muts: []Mutation{{Kind: "set", Fam: "cf", Q: []byte("q"), Ts: 1000, V: []byte("w")}}}, Now: 5000}
+				case 1:
+					c = Call{Req: Req{Kind: "rmw", Table: concTable, Key: key, Rules: []Rule{{Kind: "append", Fam: "cf", Q: []byte("s"), V: []byte("+")}}}, Now: 5000}
+				default:
+					c = Call{Req: Req{Kind: "mutate", Table: concTable, Key: key, Muts: []Mutation{{Kind: "delrow"}}}, Now: 5000}
+				}
+				if o := e.ExecFast(c); o.Code != 0 {
+					note("a write of an unrelated row ended with status %d %s", o.Code, o.Panic)
+				}
+				atomic.AddInt64(&writes, 1)
+			}
+		}(g)
+	}
+	done := make(chan struct{})
+	go func() { wg.Wait(); close(done) }()
+	select {
+	case <-done:
+		closeEmu(e)
+	case <-time.After(dur + 15*time.Second):
+		note("scans and writers did not finish within 15 s of their deadline (%d scans, %d writes done): the table lock is wedged", atomic.LoadInt64(&scans), atomic.LoadInt64(&writes))
+	}
+	mu.Lock()
+	defer mu.Unlock()
+	return Case{Store: en.name, Tag: "free-running", Prog: []Call{{Req: rs, Now: 1}}, Obs: []Resp{{Code: 0, Kind: "rows", Notes: append([]string{}, notes...)}}}
 }
